@@ -170,6 +170,11 @@ def obligations(tier):
     for ff in FFS:
         obs.append(Obligation(f"success-amino-{ff}", table_success, dict(ff=ff, residues=AMINO if tier == "thorough" else AMINO[::3] + ["GLY", "PRO", "HIS"], kind="amino"), kind="table", group="success"))
         obs.append(Obligation(f"success-water-{ff}", table_success, dict(ff=ff, residues=["WAT"], kind="water"), kind="table", group="success"))
+    from . import c02
+
+    for kind, ffs in c02.NA_FFS.items():
+        for ff in ffs:
+            obs.append(Obligation(f"success-{kind}-{ff}", c02.table_strands, dict(ff=ff, kind=kind, lengths=[2, 3] if tier == "quick" else [2, 3, 4]), kind="table", group="success"))
     obs.append(Obligation("success-amino-parse-neutral-termini", table_success, dict(ff="parse", residues=AMINO if tier == "thorough" else AMINO[::3] + ["GLY", "PRO", "HIS"], kind="amino", neutral=True), kind="table", group="success"))
     return obs
 
@@ -195,7 +200,7 @@ META = dict(
     outside=[
         "exceptions arising inside geometry code on arbitrary well-formed coordinates (the success side is checked on template geometry only)",
         "faults after the PQR has been written (pdb output, APBS input)",
-        "nucleic acids on the success side (see DESIGN)",
+        "single nucleotides and DNA under PARSE (pdb2pqr has no parameters for them); nucleic strands are covered by the table lemma shared with C02",
     ],
     assumptions=["stage stubs return normally or raise; they do not corrupt shared state", "non-integral means deviating from an integer by more than 0.01 (must fail) / exactly integral (must succeed); the band in between is unconstrained"],
     technique="symbolic execution of the real driver functions over symbolic options and a symbolic fault schedule (symx) + SMT verdict per path; success side: exhaustive table lemma",
